@@ -344,6 +344,71 @@ def locality_cases(kind, nv, ne):
     return lambda pkg: run_obligation(pkg, fn)
 
 
+def floor_cases():
+    """Q1 at the origin: "any perturbation far below the tolerance compares True" also when the reference value is exactly zero.  A
+    purely relative comparison (|a-b| <= tol * max(|a|,|b|)) has no neighbourhood of equality around 0: there 0 and 1e-300 differ.
+    The object with all-zero numbers is compared with a copy carrying an infinitesimal symbolic difference d; every comparison
+    is decided by its strict sign at d = 0 (continuity) and left open when the two sides are equal there: equals must return True
+    on every remaining path, with the default tolerance of the code."""
+    from ..algebra import zero_hook
+    from ..interp import sym_vec as _sv
+
+    def fn(it):
+        ida, idb = Poly.var("ida"), Poly.var("idb")
+        n = 0
+
+        def zero_pose(c):
+            return Pose(c, [Poly() for _ in range({"PoseR2": 2, "PoseR3": 3, "PoseSE2": 3}[c])])
+
+        def tiny_pose(c):
+            k = {"PoseR2": 2, "PoseR3": 3, "PoseSE2": 3}[c]
+            if c == "PoseSE2":
+                from .. import poly as _p
+                _p.register_angle("d[2]")
+            return Pose(c, [Poly.var("d[%d]" % i) for i in range(k)])
+        cases = []
+        for c in ("PoseR2", "PoseR3", "PoseSE2"):
+            cases.append((c, lambda i, c=c: (zero_pose(c), tiny_pose(c))))
+            cases.append(("Vertex[%s]" % c, lambda i, c=c: (mk_vertex(i, ida, zero_pose(c)), mk_vertex(i, ida, tiny_pose(c)))))
+        W2, W3 = sym_symmetric("W", 2), sym_symmetric("W", 3)
+        cases.append(("EdgeOdometry[PoseSE2].estimate", lambda i: (mk_odometry(i, "PoseSE2", [ida, idb], "a", info=W3, est=zero_pose("PoseSE2")),
+                                                                   mk_odometry(i, "PoseSE2", [ida, idb], "b", info=W3, est=tiny_pose("PoseSE2")))))
+        cases.append(("EdgeOdometry[PoseR3].estimate", lambda i: (mk_odometry(i, "PoseR3", [ida, idb], "a", info=W3, est=zero_pose("PoseR3")),
+                                                                  mk_odometry(i, "PoseR3", [ida, idb], "b", info=W3, est=tiny_pose("PoseR3")))))
+        off = sym_pose("PoseSE2", "off", unit=True)
+        cases.append(("EdgeLandmark[PoseSE2].estimate", lambda i: (mk_landmark(i, "PoseSE2", [ida, idb], "a", info=W2, est=zero_pose("PoseR2"), off=off),
+                                                                   mk_landmark(i, "PoseSE2", [ida, idb], "b", info=W2, est=tiny_pose("PoseR2"), off=copy_pose(off)))))
+        zl = sym_pose("PoseR2", "zl")
+        cases.append(("EdgeLandmark[PoseSE2].offset", lambda i: (mk_landmark(i, "PoseSE2", [ida, idb], "a", info=W2, est=zl, off=zero_pose("PoseSE2")),
+                                                                 mk_landmark(i, "PoseSE2", [ida, idb], "b", info=W2, est=copy_pose(zl), off=tiny_pose("PoseSE2")))))
+        cases.append(("CustomEdge[array estimate]", lambda i: (mk_custom(i, [ida, idb], "a", Arr([Poly(), Poly()], 1)), mk_custom(i, [ida, idb], "a", _sv("d", 2)))))
+        cases.append(("CustomEdge[float estimate]", lambda i: (mk_custom(i, [ida, idb], "a", Poly()), mk_custom(i, [ida, idb], "a", Poly.var("d[0]")))))
+        znames = ["d[%d]" % k for k in range(3)]
+        zh = zero_hook(znames)
+
+        def hook(d):
+            r = distinct_names_hook(d)
+            return r if r is not None else zh(d)
+        for label, build in cases:
+            for direction in (0, 1):
+                def run(i, build=build, direction=direction):
+                    a, b = build(i)
+                    if direction:
+                        a, b = b, a
+                    return i.call_method(a, "equals", [b])
+                paths = explore(it.pkg, run, hook=hook, max_paths=256)
+                n += len(paths)
+                for p in paths:
+                    if p.raised is not None:
+                        raise ObFail("%s: comparing the all-zero object with an infinitesimally different one raises %s" % (label, p.raised))
+                    if p.value is not True:
+                        raise ObFail("%s: the all-zero object and a copy that differs by an arbitrarily small amount compare %r%s: the comparison "
+                                     "has no absolute floor at zero (a purely relative test)" % (
+                                         label, p.value, (" on the path [%s]" % " and ".join(p.conds)[:300]) if p.conds else ""))
+        return dict(explored=n, cases=len(cases))
+    return lambda pkg: run_obligation(pkg, fn)
+
+
 def custom_size_cases():
     """Custom edges of one class whose array estimates / information matrices have different sizes: False, never an exception."""
     def fn(it):
@@ -522,9 +587,11 @@ def run(run_, pkg, tier):
             key = "C17/locality/%s-%dv-%de" % (kind, nv, ne)
             if run_.wants(key):
                 tasks.append((key, "C17-Q3-thresholds-relative-to-own-object", locality_cases(kind, nv, ne), "%s:%d" % (gfn._gs_module, gfn.lineno)))
+    if run_.wants("C17/floor-at-zero"):
+        tasks.append(("C17/floor-at-zero", "C17-Q1-small-perturbations-compare-equal", floor_cases(), "%s:%d" % (bp._gs_module, bp.lineno)))
     if run_.wants("C17/graph"):
         tasks.append(("C17/graph", "C17-Q4-graph", graph_cases(), "%s:%d" % (gfn._gs_module, gfn.lineno)))
     n_eq = sum(1 for q, f in pkg.all_functions() if f.name == "equals")
     run_.floor("equals methods", n_eq, 3)
     record(run_, tasks, run_tasks(pkg, tasks))
-    run_.floor("C17 obligations", len(tasks) if run_.only is None else 104, 104)
+    run_.floor("C17 obligations", len(tasks) if run_.only is None else 105, 105)
